@@ -181,6 +181,12 @@ func usedLen(b []byte) int {
 //
 // and the repaired database must accept a new write and keep it, and its content, across another restart.
 func (e *exec) logDamageCheck(img, where string) {
+	if walRefReuse(img) {
+		// listed finding series-ref-reused-after-snapshot-restart: the WAL uses one ref for two label sets; any damage
+		// that makes recovery fall back to a full WAL replay shows that finding, not a property of damage handling
+		e.res.Count("tolerated:"+TagRefReuseSnapshot, 1)
+		return
+	}
 	refDir := e.scratch("dmgref")
 	defer os.RemoveAll(refDir)
 	if err := simfs.CopyTree(img, refDir); err != nil {
@@ -383,6 +389,16 @@ func (e *exec) logDamageCheck(img, where string) {
 			if x.T == t && x.Kind == tsdbmodel.KFloat && x.F == 42 {
 				kept = true
 			}
+		}
+		if !kept && len(pr[probe.String()]) > 0 && (class == "wal" || class == "checkpoint") && !extraRestart {
+			// listed finding (see below): the new series inherited an out-of-order WAL sample of another series at the very
+			// timestamp of its own sample
+			e.res.Count("tolerated:"+tsdbmodel.TagWBLSkipped, 1)
+			if e.cfg.KF == tsdbmodel.TagWBLSkipped {
+				e.fail("damage-content", "known:"+tsdbmodel.TagWBLSkipped, "%s: the series created after the repair returns %v instead of %d:42 (its ref is still used by out-of-order WAL records)", desc, pr[probe.String()], t)
+				return
+			}
+			continue
 		}
 		if !kept {
 			e.fail("damage-writable", "write-after-repair-lost", "%s: the sample written after the repair is gone after the next restart", desc)
